@@ -27,6 +27,7 @@ func vfRangeSet(rs []Range) uint64 {
 func TestVerifC04Ranges(t *testing.T) {
 	r := vfev.New("C04", "ranges")
 	defer r.Finish()
+	defer r.RecoverPanic()
 	const maxLow, maxHi = 6, 8
 	var forms []Range
 	for low := 0; low <= maxLow; low++ {
